@@ -62,13 +62,24 @@ public:
         }
     }
 
-    void subscribe(awaiter_collector &chain) {
+    ///Subscribe this awaiter to a chain
+    /**
+     * @param chain chain to subscribe to
+     * @return previous top of the chain (value stored to _next at the moment of publication).
+     * Once the awaiter is published, it can be resumed (and destroyed) by other thread, so
+     * the caller must not read _next after this call, it must use the return value instead.
+     */
+    awaiter *subscribe(awaiter_collector &chain) {
         assert (this != chain.load(std::memory_order_relaxed));
+        awaiter *top = _next;
         //release memory order because we need to other thread to see change of _next
         //this is last operation of this thread with awaiter
-        while (!chain.compare_exchange_weak(_next, this, std::memory_order_release));
+        do {
+            _next = top;
+        } while (!chain.compare_exchange_weak(top, this, std::memory_order_release));
 
-        assert (_next != this);
+        assert (top != this);
+        return top;
     }
     ///releases chain atomicaly
     /**
